@@ -3,6 +3,11 @@ import itertools
 from contracts.native import role_case, generic_case, SEARCH
 
 
+def _safe(c):
+    from contracts.native import safe
+    return safe(c)
+
+
 def _result(name, rule, cases, fn, limit=None):
     ev = 0
     distinct = set()
@@ -12,11 +17,11 @@ def _result(name, rule, cases, fn, limit=None):
         ev += 1
         breach, detail = fn(*c)
         if not detail.startswith('outside'):
-            distinct.add(repr(c))
+            distinct.add(_safe(c))
         if len(sample) < 3:
-            sample.append({'case': repr(c), 'result': detail})
+            sample.append({'case': _safe(c), 'result': detail})
         if breach:
-            viol.append({'key': repr(c), 'detail': detail})
+            viol.append({'key': _safe(c), 'detail': detail})
             if len(viol) >= 3:
                 break
     return {'name': name, 'evaluations': ev, 'distinct_nontrivial': len(distinct), 'rule': rule,
@@ -24,31 +29,35 @@ def _result(name, rule, cases, fn, limit=None):
 
 
 def role_cases():
-    matches = ['admin', 'Admin', 'ADMIN', '%(r)s', 'a%(r)sb', 'Ämter', '']
-    targets = [{}, {'r': 'admin'}, {'r': 'Dm'}, {'r': 1}]
+    matches = ['admin', 'Admin', 'ADMIN', '%(r)s', 'a%(r)sb', 'Ämter', '', '%(target.role.name)s', 'dm']
+    from contracts.native import HUGE
+    targets = [{}, {'r': 'admin'}, {'r': 'Dm'}, {'r': 1}, {'target.role.name': 'Admin', 'r': ''}, {'r': HUGE}]
     creds = [{}, {'roles': []}, {'roles': ['admin']}, {'roles': ['x', 'ADMIN']}, {'roles': ['aDmb']},
-             {'roles': ['ämter']}, {'roles': ['']}, {'role': ['admin']}, {'roles': ['1']}]
+             {'roles': ['ämter']}, {'roles': ['']}, {'role': ['admin']}, {'roles': ['1']},
+             {'roles': ['projectadmin', 'admin_ro', 'compute:admin']}, {'roles': ['x', 'y']}]
     return itertools.product(matches, targets, creds)
 
 
 def role_check(tier='quick', seed=0):
-    return _result('role_check small-scope', 'all (match, target, creds) over 7 matches x 4 targets x 9 credential '
+    return _result('role_check small-scope', 'all (match, target, creds) over 9 matches x 6 targets (one holding an integer beyond the digit limit of str()) x 11 credential '
                    'shapes; distinct = cases inside the precondition', role_cases(), role_case)
 
 
 def generic_cases():
     kinds = ['a', 'a.b', 'a.b.c', "'x'", '"x"', '1', '1.5', 'True', 'None', 'class', '1+', '', 'a.0', '[', 'x y', '{[]}', '{{}:1}']
-    matches = ['x', '1', 'True', 'None', '%(t)s', '1.5']
-    targets = [{}, {'t': 'x'}, {'t': 1}]
+    matches = ['x', '1', 'True', 'None', '%(t)s', '1.5', '%(u.id)s', '%(p-q:r)s', 'pre-%(t)s-%(u.id)s', '%%(t)s', '%(t)s%(t)s']
+    from contracts.native import HUGE
+    targets = [{}, {'t': 'x'}, {'t': 1}, {'u.id': 'x', 't': 'y'}, {'p-q:r': 'x'}, {'t': 'pre-x-x', 'u.id': 'x'}, {'t': HUGE}]
     creds = [{}, {'a': 'x'}, {'a': {'b': 'x'}}, {'a': [{'b': 'x'}, {'b': 'y'}]}, {'a': None}, {'a': 3},
              {'a': [[1]]}, {'a': {'b': [1, 'x']}}, {'a': {'b': {'c': 'x'}}}, {'a': ['x', 'y']}, {'a': True},
-             {'a': {'b': None}}, {'a': [{'b': [{'c': 'x'}]}]}]
+             {'a': {'b': None}}, {'a': [{'b': [{'c': 'x'}]}]}, {'a': HUGE}, {'a': {'b': [1, HUGE]}}, {'a': [HUGE, 'x']}]
+    kinds = kinds + ['0x' + 'f' * 4300, '-0x' + 'f' * 4300, '[0x' + 'f' * 4300 + ']']
     return itertools.product(kinds, matches, targets, creds)
 
 
 def generic_check(tier='quick', seed=0):
-    return _result('generic_check small-scope', 'all (kind, match, target, creds) over 17 left sides x 6 right sides x '
-                   '3 targets x 13 credential shapes (every JSON type on the path)', generic_cases(), generic_case)
+    return _result('generic_check small-scope', 'all (kind, match, target, creds) over 20 left sides (three of them integer literals beyond the digit limit of str()) x 11 right sides (identifier, dotted and punctuated placeholder keys, several placeholders, an escaped %) x '
+                   '7 targets x 16 credential shapes (every JSON type on the path, incl. integers beyond the digit limit)', generic_cases(), generic_case)
 
 
 def _search(cases, fn):
@@ -56,7 +65,7 @@ def _search(cases, fn):
         for c in cases():
             breach, detail = fn(*c)
             if breach:
-                return ({'case': repr(c)}, detail)
+                return ({'case': _safe(c)}, detail)
         return None
     return s
 
